@@ -46,6 +46,32 @@ Proof.
   rewrite H. cbn [fst]. rewrite (NewMnemonicByEntropy_valid _ lg Hve). reflexivity.
 Qed.
 
+(* the two generators agree on sizes: a word count n is accepted by NewMnemonic exactly when the 4n/3 bytes it
+   asks its source for form an entropy NewMnemonicByEntropy accepts - for EVERY int n (no count outside the five
+   makes NewMnemonic build a buffer the other generator would take, and none inside is refused) *)
+Theorem C09_generators_agree : forall (n lg : Z) (s : script) (ent : list byte),
+  Z.of_nat (length ent) = (n + n / 3)%Z ->
+  (snd (NewMnemonic n lg s) = s /\ fst (NewMnemonic n lg s) = Ret ([], Some ErrWordLen) <-> ~ valid_wc_z n)
+  /\ (valid_wc_z n <-> valid_ent (length ent))
+  /\ (NewMnemonicByEntropy ent lg = Ret ([], Some ErrEntropyLen) <-> ~ valid_wc_z n).
+Proof.
+  intros n lg s ent Hlen.
+  assert (Hiff : valid_wc_z n <-> valid_ent (length ent)).
+  { split; intros H.
+    - apply valid_ent_nat. unfold valid_wc_z in H. unfold valid_ent_z. lia.
+    - unfold valid_ent in H. cbn [In] in H. unfold valid_wc_z. lia. }
+  split; [|split; [exact Hiff|]].
+  - split.
+    + intros [_ E] Hv. pose proof (NewMnemonic_accepts n lg s Hv) as A. cbn zeta in A.
+      destruct (Z.to_nat (n + n / 3) <=? length (delivered s))%nat.
+      * rewrite E in A. discriminate A.
+      * destruct A as [e A]. rewrite E in A. discriminate A.
+    + intros Hn. rewrite (NewMnemonic_rejects n lg s Hn). split; reflexivity.
+  - split.
+    + intros E Hv. destruct (C09_entropy_accept ent lg (proj1 Hiff Hv)) as [m [M _]]. rewrite M in E. discriminate E.
+    + intros Hn. apply NewMnemonicByEntropy_invalid. intros Hv. apply Hn. apply Hiff. exact Hv.
+Qed.
+
 (* the sizes: the gates read from the source accept exactly 16..32 step 4 and 12..24 step 3 *)
 Theorem C09_gates : forall n : Z,
   (Gen.Gates.gate_entropy n = false <-> (n = 16 \/ n = 20 \/ n = 24 \/ n = 28 \/ n = 32)%Z) /\
@@ -65,3 +91,4 @@ Print Assumptions C09_entropy_reject.
 Print Assumptions C09_words_reject.
 Print Assumptions C09_words_accept.
 Print Assumptions C09_gates.
+Print Assumptions C09_generators_agree.
